@@ -66,7 +66,7 @@ def linear_spline(
         inv_bin_idx = torchutils.searchsorted(cdf, inputs)
 
         bin_boundaries = (
-            torch.linspace(0, 1, num_bins + 1)
+            torch.linspace(0, 1, num_bins + 1, dtype=inputs.dtype, device=inputs.device)
             .view([1] * inputs.dim() + [-1])
             .expand(*inputs.shape, -1)
         )
